@@ -32,6 +32,8 @@ type c17Case struct {
 	OnFor int    `json:"on_for,omitempty"`
 	// Pre (mode "offwrite"): index+1 of the register write made while the LCD is off, before the program runs (0: all)
 	Pre int `json:"pre,omitempty"`
+	// Debug: the machine is built with Config.DebugLCD set (a legal configuration; the statement holds for it too)
+	Debug bool `json:"debug,omitempty"`
 }
 
 // register writes a guest may make while the LCD is off; none of them may re-arm the OAM bug
@@ -152,7 +154,7 @@ func c17Check(l *explore.Local, _ struct{}, c c17Case) *explore.Fail {
 	if c.Mode == "dmaoff" {
 		return c17DMAOff(l, c)
 	}
-	m := machine.New(machine.ROMOnly(), machine.Opts{})
+	m := machine.New(machine.ROMOnly(), machine.Opts{DebugLCD: c.Debug})
 	// fill OAM through a DMA transfer (no CPU/OAM-bug interaction): every row distinct
 	for i := 0; i < 160; i++ {
 		m.Map.Write(0xc100+uint16(i), uint8(i*7+i/8*0x21+0x13))
@@ -294,7 +296,7 @@ func c17Check(l *explore.Local, _ struct{}, c c17Case) *explore.Fail {
 								}
 								f := explore.Failf("OAM altered without a CPU write or DMA: "+state,
 									"%s, line %d tick %d, pointer %04x, program % x: OAM[%d]=%02x, expected %02x", state, c.Line, tick, ptr, code, i, got, exp[i])
-								f.Case = c17Case{Mode: c.Mode, Line: c.Line, From: c.From, To: c.To, Len: len(prog), Tick: tick, Prog: prog, Ptr: ptr, OnFor: c.OnFor, Pre: pre}
+								f.Case = c17Case{Mode: c.Mode, Line: c.Line, From: c.From, To: c.To, Len: len(prog), Tick: tick, Prog: prog, Ptr: ptr, OnFor: c.OnFor, Pre: pre, Debug: c.Debug}
 								return f
 							}
 						}
@@ -329,7 +331,7 @@ func init() {
 		if c.Thorough() {
 			n = 2
 		}
-		explore.Product(c.R, "oam-integrity", explore.PartOpt{Bound: fmt.Sprintf("programs of length <= %d (one extra block of length %d on line 1)", n, n+1), Domain: "switch-off at every cycle of lines 0,1,143,144,153; off-on-off; LCD on outside mode 2; switch-off at every cycle of lines 1 and 150 followed by one of 16 register writes (LY, STAT, LYC, LCDC with bit 7 clear, scroll, window, palettes, IF, IE); DMA started + pointer instruction at every cycle of line 1 with the LCD on, then LCD off and NOPs until after the transfer"},
+		explore.Product(c.R, "oam-integrity", explore.PartOpt{Bound: fmt.Sprintf("programs of length <= %d (one extra block of length %d on line 1)", n, n+1), Domain: "switch-off at every cycle of lines 0,1,143,144,153; off-on-off; LCD on outside mode 2; switch-off at every cycle of lines 1 and 150 followed by one of 16 register writes (LY, STAT, LYC, LCDC with bit 7 clear, scroll, window, palettes, IF, IE); the LCD switched off at every cycle of lines 1 and 144 on a machine built with DebugLCD; DMA started + pointer instruction at every cycle of line 1 with the LCD on, then LCD off and NOPs until after the transfer"},
 			func(yield func(c17Case) bool) {
 				for _, line := range []int{0, 1, 143, 144, 153} {
 					for from := 0; from < 114; from += 6 {
@@ -342,6 +344,14 @@ func init() {
 							if !yield(c17Case{Mode: "offonoff", Line: line, From: from, To: from + 6, Len: 1, OnFor: onFor}) {
 								return
 							}
+						}
+					}
+				}
+				// the same switch-off points on a machine built with DebugLCD
+				for _, line := range []int{1, 144} {
+					for from := 0; from < 114; from += 6 {
+						if !yield(c17Case{Mode: "off", Line: line, From: from, To: from + 6, Len: 1, Debug: true}) {
+							return
 						}
 					}
 				}
